@@ -35,7 +35,7 @@ ALL_DELTAS = [1] + list(range(2, 61)) + [1325, 1326, 2715647]
 def build(ctx):
     R = os.path.join(REPO, "src")
     sync_c = R + "/target/firmware/layer1/sync.c"
-    body = cbuild.slice_function(sync_c, r"^void\s+l1s_time_inc\s*\(")
+    body = cbuild.slice_with_static_deps(sync_c, [r"^void\s+l1s_time_inc\s*\("])
     tu = os.path.join(ctx.scratch, "sync_slice.c")
     with open(tu, "w") as f:
         f.write("/* generated: l1s_time_inc sliced from %s */\n" % sync_c)
